@@ -10,23 +10,23 @@ sys.path.insert(0, ROOT)
 
 LEVEL_TEXT = {
  "C01": "Executable water ledger replayed over the recorded per-process and per-day events of real runs (nine wrapped processes, storage with the thicknesses captured at initialisation, carry-over and season-reset clauses). Exploration: held on the hostile configurations and days counted in the evidence.",
- "C02": "Row monitor over real runs: the user's rain record of the date plus the efficiency-adjusted application against reported infiltration + runoff, bounds on runoff, and negative infiltration only on the first day the ponding capacity falls below the pond.",
+ "C02": "Row monitor over real runs: the user's rain record of the date plus the efficiency-adjusted application against reported infiltration + runoff, bounds on runoff, negative infiltration only on the first day the ponding capacity falls below the pond, and the pond before the first step as configured.",
  "C03": "Row monitor over real runs: every compartment against the air-dry/saturation arrays captured at initialisation, ponding against the bund height the user configured (also in a second model built from the same objects), root-zone storage.",
  "C04": "Row monitor over real runs emphasising dense canopies, ponding, mulches and partial wetting: sign of all nine fluxes, actual <= potential, zeros out of season.",
  "C05": "Row monitor over real runs of all 37 crops against the envelope the user configured (catalogue + constructor arguments; the season's crop object must carry the same values), incl. a second model of the same crop with a narrower envelope in the same process: canopy, rooting depth (water table, restrictive layers), harvest indices, degree days, finiteness.",
  "C06": "Row + summary monitor over real runs: biomass gain ratio against WP*fCO2*Tr/ET0 with the user's ET0 by date, yield identities, and a one-to-one match of harvest events (observed by the step tap) with summary rows.",
  "C07": "Reference calendar (plain datetime arithmetic) replayed over the executed step sequence of real runs, incl. runs driven through random step compositions: order, dates, dap chain, season ends, jumps, termination, number of seasons, latest harvest dates (one month/day for all seasons, first such day after planting).",
  "C08": "Differential oracle over real runs: every season of a multi-season run (and season 0 after a fallow start) bit-identical to a fresh run started on that planting date; season-entry state diff as witness.",
- "C09": "Differential oracle: all 2^(n-1) step compositions of short windows (exhaustive for those windows) and random compositions of long ones reproduce the uninterrupted run and its completion status after every call, incl. getters read between calls and re-used model objects.",
- "C10": "Output digests of real runs compared across fresh interpreters (hash seeds), in-process histories (unrelated and near-identical predecessors) and pool workers; digest of process-global objects between models.",
- "C11": "Differential oracle: re-run of the same model and models re-built from the same user objects reproduce the first run and do not raise; semantic snapshots of the user objects as witness.",
+ "C09": "Differential oracle: all 2^(n-1) step compositions of short windows (exhaustive for those windows) and random compositions of long ones reproduce the uninterrupted run and its completion status after every call, incl. getters read between calls, re-used model objects and further calls made after termination.",
+ "C10": "Output digests of real runs compared across fresh interpreters (hash seeds), in-process histories (unrelated and near-identical predecessors, models paused while another one runs) and pool workers; digest of process-global objects between models.",
+ "C11": "Differential oracle: three re-runs of the same model and models re-built from the same user objects (incl. crops the model converts to thermal time) reproduce the first run and do not raise; semantic snapshots of the user objects as witness.",
  "C12": "Sanitizer-style: every parameter array is write-protected after initialisation (a write raises at the faulting statement) and content digests of all parameter groups are taken before and after every step.",
  "C13": "Contract checker over the recorded arguments and results of every irrigation call of real runs, with the schedule looked up in the user's table by date, an independent depletion estimate and an independent growth stage.",
  "C14": "Logging ndarray on the weather matrix (every index read) plus differential runs: weather replaced from a cut day on, padded (with holes) outside the window, end date extended.",
  "C15": "Per-step binding check of the stored weather values against the user's record of that date, plus differential runs over transformed weather tables (all 120 column permutations in the thorough tier).",
  "C16": "Catalogue sweep of real runs under logical-time watchdogs; finiteness of every reported cell; only documented rejections accepted, and those only when an independent degree-day count justifies them. Thorough: the full 37x15x6 product.",
  "C17": "Runtime contracts on the real response functions over an exhaustive 37-crop lattice (parameters as initialised by the model), the CO2 factor through both code paths for the default and two user-supplied reference concentrations, and the same range contracts riding along in real simulations.",
- "C18": "Structural invariants of the live soil profile right after the real _initialize(), and an independent reference for layer assignment and initial water content, over built-in, custom and texture soils and all crop rooting depths.",
+ "C18": "Structural invariants of the live soil profile right after the real _initialize(), and an independent reference for layer assignment and initial water content (with and without a water table, requests below wilting point), over built-in, custom and texture soils and all crop rooting depths.",
  "C19": "Row/ledger monitor over real runs with water tables (reference depth series by date incl. observations outside the window and a second model given the same GroundWater object over a later window, adjusted field capacity, saturation below the table, capillary-rise ceiling) plus far-table-vs-no-table differential runs.",
  "C20": "Differential oracle over real runs: base configuration vs. twelve neutral transformations (in-season and fallow management, other strategies' parameters, neutral values, explicit default harvest date), alone and combined.",
 }
